@@ -139,6 +139,15 @@ static void seq_faults(vh_rng* r, int kind, int et, int size) {
   var c = kind == SK_ARRAY ? (var)new_with(Array, tuple(et ? PElem : Int)) : kind == SK_LIST ? (var)new_with(List, tuple(et ? PElem : Int)) : (var)new(Tuple);
   int64_t m[200]; int n = 0;
   for (int i = 0; i < size; i++) { int64_t v = i * 3 + 1; var x = mk_elem(kind, et, v, NULL); push(c, x); if (kind != SK_TUPLE) { del_raw(x); } m[n++] = v; }
+  if (size == 0) {
+    /* the ways of being empty: never filled, drained one by one, emptied with resize(c, 0) */
+    int how = (int)vh_below(r, 3), k = 1 + (int)vh_below(r, 20);
+    if (how > 0) {
+      for (int i = 0; i < k; i++) { var x = mk_elem(kind, et, 5 + i, NULL); push(c, x); if (kind != SK_TUPLE) { del_raw(x); } }
+      if (how == 1) { while (len(c) > 0) { if (vh_chance(r, 50)) { pop(c); } else { pop_at(c, $I(0)); } } vh_count("empty_after_draining"); }
+      else { resize(c, 0); vh_count("empty_after_resize_0"); }
+    }
+  }
   char kn[40]; snprintf(kn, sizeof kn, "%s<%s>", SKNAME[kind], kind == SK_TUPLE ? "Int*" : et ? "PElem" : "Int");
   cur_kind = kn; cur_size = (size_t)size;
   int64_t L = size;
@@ -192,6 +201,14 @@ static void map_faults(vh_rng* r, int is_tree, int strkeys, int size) {
     int k = i * 2; snprintf(kb, sizeof kb, "k%03d", k);
     if (strkeys) { set(c, $S(kb), $I(k + 1)); } else { set(c, $I(k), $I(k + 1)); }
     present[k] = 1; val[k] = k + 1; n++;
+  }
+  if (size == 0) {
+    int how = (int)vh_below(r, 3), k = 1 + (int)vh_below(r, 20);
+    if (how > 0) {
+      for (int i = 0; i < k; i++) { snprintf(kb, sizeof kb, "q%03d", i); if (strkeys) { set(c, $S(kb), $I(i)); } else { set(c, $I(1000 + i), $I(i)); } }
+      if (how == 1) { for (int i = 0; i < k; i++) { snprintf(kb, sizeof kb, "q%03d", i); if (strkeys) { rem(c, $S(kb)); } else { rem(c, $I(1000 + i)); } } vh_count("empty_after_draining"); }
+      else { resize(c, 0); vh_count("empty_after_resize_0"); }
+    }
   }
   char kn[40]; snprintf(kn, sizeof kn, "%s<%s,Int>", is_tree ? "Tree" : "Table", strkeys ? "String" : "Int");
   cur_kind = kn; cur_size = (size_t)size;
@@ -335,9 +352,9 @@ static const int SIZES[] = { 0, 1, 2, 7, 64 };
 static void fixed(void) {
   vh_rng r; vh_rng_seed(&r, 1212);
   for (int kind = 0; kind < 3; kind++) { for (int et = 0; et < (kind == SK_TUPLE ? 1 : 2); et++) { for (int si = 0; si < 5; si++) {
-    seq_faults(&r, kind, et, SIZES[si]);
+    for (int rep = 0; rep < (SIZES[si] == 0 ? 8 : 1); rep++) { seq_faults(&r, kind, et, SIZES[si]); }
   } } }
-  for (int tree = 0; tree < 2; tree++) { for (int sk = 0; sk < 2; sk++) { for (int si = 0; si < 5; si++) { map_faults(&r, tree, sk, SIZES[si]); } } }
+  for (int tree = 0; tree < 2; tree++) { for (int sk = 0; sk < 2; sk++) { for (int si = 0; si < 5; si++) { for (int rep = 0; rep < (SIZES[si] == 0 ? 8 : 1); rep++) { map_faults(&r, tree, sk, SIZES[si]); } } } }
   string_faults(""); string_faults("a"); string_faults("hello world"); string_faults("%i %s %% percent");
   range_faults(0, 10, 1); range_faults(0, 10, 3); range_faults(5, 5, 1); range_faults(-4, 9, -2); range_faults(0, 0, 1);
   scalar_faults();
@@ -349,7 +366,7 @@ static void fixed(void) {
 /* random sizes and contents for the same fault table */
 static void case_random(vh_rng* r, long index) {
   long f0 = faults_run;
-  int size = (int)vh_below(r, 70);
+  int size = vh_chance(r, 16) ? 0 : (int)vh_below(r, 70);
   switch (index % 4) {
     case 0: { int kind = (int)vh_below(r, 3); int et = kind == SK_TUPLE ? 0 : (int)vh_below(r, 2); seq_faults(r, kind, et, size); vh_op("%s size %d", SKNAME[kind], size); break; }
     case 1: { int tree = (int)vh_below(r, 2), sk = (int)vh_below(r, 2); if (size > 60) { size = 60; } map_faults(r, tree, sk, size); vh_op("%s strkeys=%d size %d", tree ? "Tree" : "Table", sk, size); break; }
